@@ -335,7 +335,7 @@ func (fi *FuncInfo) loadVersion(a ssa.Value, at ssa.Instruction) string {
 // FieldPath renders base.f1.f2... as it would be loaded at instruction 'at' (with version tags).
 // base is the canonical text of a pointer-to-struct (or struct) value.
 func (fi *FuncInfo) FieldPath(base string, at ssa.Instruction, fields ...*types.Var) string {
-	s := base
+	s, _ := stripAddr(base) // the address of a local object: its fields are named after the object
 	for _, f := range fields {
 		s = s + "." + f.Name() + fi.Version(map[memKey]bool{fieldKey(f): true}, at)
 	}
